@@ -13,12 +13,12 @@ H.append({"name":"H_pair","tiers":Q,"scale":"b4","bounds":"B=4: old {0,4,5}, new
   "param_sets":[{"n0":a,"n1":-1,"nnew":n} for a in (0,4,5) for n in (0,4,5,6)]})
 H.append({"name":"H_shapes","tiers":Q,"scale":"b2","bounds":"B=2: old files x (3 or 5 bytes) and sub/y (0 or 4), each new slot derived by one of 9 relations (identical, renamed, duplicated, block-aligned prefix/suffix, 1-byte edit, insertion, fresh, empty), symlink/dir kept/retargeted/replaced; generic-position contents",
   "param_sets":[{"n0":a,"n1":b,"s0":s0,"s1":s1,"extra":e} for (a,b) in ((5,4),(3,0)) for s0 in range(0,9) for s1 in range(0,9) for e in (0,1,2) if (s0+s1+e)%3==0 or s0==s1]})
-H.append({"name":"H_pair","tiers":T,"scale":"b3","bounds":"B=3: two old files 0..2B+1 / 0..B, new 0..2B+1","max_seconds":1500,
-  "param_sets":[{"n0":a,"n1":b,"nnew":n} for a in range(0,8) for b in (-1,0,3) for n in range(0,8)]})
+H.append({"name":"H_pair","tiers":T,"scale":"b3","bounds":"B=3: two old files 0..2B+1 / 0..B, new 0..2B-1 (new of 2B or more with old of B+1 or more exceeds the per-instance budget)","max_seconds":900,
+  "param_sets":[{"n0":a,"n1":b,"nnew":n} for a in range(0,8) for b in (-1,0,3) for n in range(0,8) if not (n>=6 and a>=4)]})
 H.append({"name":"H_shapes","tiers":T,"scale":"b2","bounds":"B=2: all 9x9x3 shape combinations for sizes (5,4),(3,0),(4,2),(2,5)","max_seconds":1500,
   "param_sets":[{"n0":a,"n1":b,"s0":s0,"s1":s1,"extra":e} for (a,b) in ((5,4),(3,0),(4,2),(2,5)) for s0 in range(0,9) for s1 in range(0,9) for e in (0,1,2)]})
-H.append({"name":"H_shapes","tiers":T,"scale":"b4","bounds":"B=4: sizes (9,4),(5,8): all shape pairs, extra=0","max_seconds":1500,
-  "param_sets":[{"n0":a,"n1":b,"s0":s0,"s1":s1,"extra":0} for (a,b) in ((9,4),(5,8)) for s0 in range(0,9) for s1 in range(0,9)]})
+H.append({"name":"H_shapes","tiers":T,"scale":"b4","bounds":"B=4: sizes (9,4),(5,8): all shape pairs except the insertion shape (6) on the larger file, extra=0","max_seconds":900,
+  "param_sets":[{"n0":a,"n1":b,"s0":s0,"s1":s1,"extra":0} for (a,b) in ((9,4),(5,8)) for s0 in range(0,9) for s1 in range(0,9) if not ((a==9 and s0 in (6,7)) or (b==8 and s1==6))]})
 H.append({"name":"H_pair","tiers":Q,"scale":"b2","bounds":"the same through the two model codecs (compression wiring: header, stream, trailer, decompressing source): B=2, old 0..4, new in {0,3,5}",
   "param_sets":[{"n0":a,"n1":-1,"nnew":n,"comp":c} for a in (0,2,3,4) for n in (0,3,5) for c in (1,2)]})
 H.append({"name":"H_real","tiers":Q,"max_steps":2000000000,"bounds":"REGIME R (no constant scaled): old a = 2 blocks + 100 bytes, b = 1 block + 1 byte, concrete pseudo-random; new = unaligned 2-byte symbolic insertion + tail edit / second block onwards + fresh byte + duplicated file / swapped files with a symbolic first byte",
